@@ -121,6 +121,10 @@ impl Vm {
       self.fiber_queue.push_back(new_fiber);
       self.current_fun = current_fun;
       self.load_ip();
+    } else {
+      // the callee finished synchronously (native or class without init)
+      // and left its result in place of the callee and arguments
+      self.fiber.drop();
     }
 
     ExecutionSignal::Ok
